@@ -35,7 +35,7 @@ TRUSTED = [
     "C06 threads(): os.listdir of the task directory is scripted (shuffled order); a vanished thread = listed directory without stat file (ENOENT), or _pslinux.open_binary patched for that one path to raise ProcessLookupError / to return a file whose read() raises it (ESRCH); 'process gone at the end' = os.stat(/proc/<pid>) and os.path.exists(/proc/<pid>/stat) fail while the fake procfs still serves the file (no zombie records in that sub-family)",
 ]
 MANIFEST = {
-    "level_text": "Machine-checked Lean 4 proofs that the model of _parse_stat_file/name/ppid/status/cpu_times/create_time/cpu_num/terminal and of threads() inverts the kernel's stat renderer for EVERY comm byte string (any bytes, any number of parentheses, blanks, newlines), every state letter, unbounded counters, old-kernel records without the trailing fields (C06_stat_roundtrip and its per-method corollaries, C06_threads_exact, C06_old_kernel_iowait_zero), that PROC_STATUSES is the documented letter table (C06_status_letter_map, decide over the generated dict), and that uids/gids/num_threads/num_ctx_switches extract the real lines of a status file rendered with the kernel's Name: escaping for every name (C06_status_extract, C06_ctx_switches_extract), with groups that accept exactly non-empty ASCII-digit runs so that no byte string can make them raise ValueError (C06_status_tokens_digits_only, C06_status_match_shape). Round 2 adds the code around the parsers: terminal() through the real get_terminal_map over an abstract /dev in any listing order with vanishing entries and aliases (C06_terminal_map_exact_code: TerminalMapExact_Full for the code as it is, non-device files included, since get_terminal_map tests S_ISCHR - fact tmapChecksChr pinned by xcfg_good / cfg_tmap_checks_chr; refuted for the configuration without the test by a regular file with st_rdev 0, C06_terminal_nondevice_counterexample), histories of calls in one interpreter: the memoised map answers, i.e. every call is exact for the /dev of the FIRST terminal() call (C06_terminal_memoized, C06_terminal_first_scan_wins) and for the current /dev whenever /dev did not change (C06_terminal_unchanged_dev_exact); C06_terminal_stale_counterexample only characterises the memoisation (a pty created later is not seen; by design, beyond the property's quantifier), create_time() end to end from the text of /proc/stat and /proc/<pid>/stat with the BOOT_TIME pin (C06_boot_time_exact, C06_create_time_end_to_end, C06_create_time_uses_pinned_boot_time), and the VALUE and ORDER of threads() for every os.listdir order and every set of threads that vanish mid-scan (C06_threads_order: string order of the names; C06_threads_value, C06_threads_gone, C06_threads_old_kernel). The theorems hold for the configuration cfg_good, a proof obligation fed by translator facts (indices, find/rfind, regex keys, anchoring and separator form - 'exactly one tab' is a fact, not a model constant -, binary open mode; cfg_status_patterns: the exact source of the four compiled status regexes as the imported module holds them, so that any edit of a pattern breaks the obligation; xcfg_good: glob patterns, FileNotFoundError guard, memoize, btime key/index, cached boot time, sort, vanish handling); for the pre-fix configurations the negations are proved with concrete witnesses (thread named `a) b`; process named `Uid:\\t0\\t0\\t0`; text-mode reading with `\\r`). Tie: translator + differential run of the real Process methods over a fake procfs and a redirected /dev, called plainly, inside oneshot(), through as_dict(), on the objects of process_iter() and through process_iter(attrs).info.",
+    "level_text": "Machine-checked Lean 4 proofs that the model of _parse_stat_file/name/ppid/status/cpu_times/create_time/cpu_num/terminal and of threads() inverts the kernel's stat renderer for EVERY comm byte string (any bytes, any number of parentheses, blanks, newlines), every state letter, unbounded counters, old-kernel records without the trailing fields (C06_stat_roundtrip and its per-method corollaries, C06_threads_exact, C06_old_kernel_iowait_zero), that PROC_STATUSES is the documented letter table (C06_status_letter_map, decide over the generated dict), and that uids/gids/num_threads/num_ctx_switches extract the real lines of a status file rendered with the kernel's Name: escaping for every name (C06_status_extract, C06_ctx_switches_extract), with groups that accept exactly non-empty ASCII-digit runs so that no byte string can make them raise ValueError (C06_status_tokens_digits_only, C06_status_match_shape). Round 2 adds the code around the parsers: terminal() through the real get_terminal_map over an abstract /dev in any listing order with vanishing entries and aliases (C06_terminal_map_exact_code: TerminalMapExact_Full for the code as it is, non-device files included, since get_terminal_map tests S_ISCHR - fact tmapChecksChr pinned by xcfg_good / cfg_tmap_checks_chr; refuted for the configuration without the test by a regular file with st_rdev 0, C06_terminal_nondevice_counterexample), histories of calls in one interpreter: the memoised map answers, i.e. every call is exact for the /dev of the FIRST terminal() call (C06_terminal_memoized, C06_terminal_first_scan_wins) and for the current /dev whenever /dev did not change (C06_terminal_unchanged_dev_exact); C06_terminal_stale_counterexample only characterises the memoisation (a pty created later is not seen; by design, beyond the property's quantifier), create_time() end to end from the text of /proc/stat and /proc/<pid>/stat with the BOOT_TIME pin (C06_boot_time_exact, C06_create_time_end_to_end, C06_create_time_uses_pinned_boot_time), and the VALUE and ORDER of threads() for every os.listdir order and every set of threads that vanish mid-scan (C06_threads_order: string order of the names; C06_threads_value, C06_threads_gone, C06_threads_old_kernel; C06_threads_value_any_signal / C06_threads_gone_any_signal: the same for every assignment of vanish signals - FileNotFoundError on open or ProcessLookupError on open/read - to the ended threads; C06_threads_liveness_checked_only_after_vanish), and the falsy BOOT_TIME pin 0.0 (C06_create_time_zero_boot_time_rereads, C06_create_time_two_calls: the full two-call history over any two /proc/stat texts). The theorems hold for the configuration cfg_good, a proof obligation fed by translator facts (indices, find/rfind, regex keys, anchoring and separator form - 'exactly one tab' is a fact, not a model constant -, binary open mode; cfg_status_patterns: the exact source of the four compiled status regexes as the imported module holds them, so that any edit of a pattern breaks the obligation; xcfg_good: glob patterns, FileNotFoundError guard, memoize, btime key/index, cached boot time, sort, vanish handling for both exception classes, initial value of the hit_enoent flag); for the pre-fix configurations the negations are proved with concrete witnesses (thread named `a) b`; process named `Uid:\\t0\\t0\\t0`; text-mode reading with `\\r`). Tie: translator + differential run of the real Process methods over a fake procfs and a redirected /dev, called plainly, twice inside oneshot() (every getter on warm caches, the platform create_time()/ppid() included), through as_dict(), on the objects of process_iter() and through process_iter(attrs).info; thread names are explored on their own (exhaustive short names and `x) yz` forms for secondary threads, live task/<tid>/stat records of threads that renamed themselves).",
     "level_note": "Trusted: Lean kernel + {propext, Classical.choice, Quot.sound}; translator; correspondence harness; kernel renderers (validated against the live kernel each run); CPython int/float/split/re modelled; floats = exact rationals within 1e-12 relative.",
     "technique": "Lean 4 round-trip proofs parse(render r) = view r over all byte strings + translator-fed proof obligation + differential correspondence through a fake procfs",
     "design_ref": "DESIGN.md §5 C06",
@@ -1111,7 +1111,7 @@ def correspond(ctx, res):
                     "counter >= 2^31, or the record is an old-kernel or malformed one; distinct = distinct rendered files")
         live = validate_renderers(ctx, res)
         cases = corpus_cases() + live_cases(live)
-        n = ctx.n(1800, 30000)
+        n = ctx.n(1600, 24000)
         n_mal = max(50, n // 8)
         for i in range(n):
             cases.append(gen_case(ctx.rng, FAMILIES[i % len(FAMILIES)]))
